@@ -4,7 +4,7 @@
      ple_rec_spec : base_ok base -> wf A -> length P0 = nr A -> length Q0 = nc A ->
                     ple_spec A (ple_rec base cutoff A P0 Q0)                     (all cutoffs). *)
 From Coq Require Import List NArith Arith Lia Bool Sorted.
-From M4 Require Import Base.Bits Lin.Mat Lin.MatAlg Lin.Ops Lin.OpsProofs Lin.Spec Lin.Perm Lin.Observers
+From M4 Require Import Base.Bits Lin.Mat Lin.MatAlg Lin.Ops Lin.OpsProofs Lin.Spec Lin.Perm Lin.Observers Lin.Tri
   Alg.PLE Alg.PLELemmas Alg.PLESpec Alg.PLEProofs Alg.PLEProofs2 Alg.PLEProofs3 Alg.PLEProofs4
   Alg.PLEProofs6 Alg.PLEProofs7 Alg.PLEProofs8.
 Import ListNotations.
@@ -26,11 +26,11 @@ Lemma nr_mpaste A r0 c0 B : nr (mpaste A r0 c0 B) = nr A. Proof. reflexivity. Qe
 Lemma nc_mpaste A r0 c0 B : nc (mpaste A r0 c0 B) = nc A. Proof. reflexivity. Qed.
 
 Ltac bcase :=
-  repeat match goal with
+  repeat (match goal with
   | |- context [Nat.ltb ?a ?b] => destruct (Nat.ltb_spec a b)
   | |- context [Nat.leb ?a ?b] => destruct (Nat.leb_spec a b)
   | |- context [Nat.eqb ?a ?b] => destruct (Nat.eqb_spec a b)
-  end; cbn [andb orb negb]; try lia; try reflexivity.
+  end; try (exfalso; lia); cbn [andb orb negb]); try reflexivity.
 
 Section Schur.
   Variables (A T0 : mat) (m0 n1 r1 : nat) (P1 : list nat).
@@ -154,7 +154,7 @@ Section Schur.
         rewrite HgAc, HgAb. replace (n1 + j - n1) with j by lia. bcase. }
       set (Cm := madd W3 (mmul A10 Xm)).
       assert (HwCm : wf Cm).
-      { apply wf_madd; auto; [apply wf_mmul; auto|rewrite nr_mmul; congruence|rewrite nc_mmul; congruence]. }
+      { apply wf_madd; [assumption|apply wf_mmul; assumption|rewrite nr_mmul; congruence|rewrite nc_mmul; congruence]. }
       assert (HgCm : forall i j, i < m0 - r1 -> j < n - n1 ->
                 get Cm i j = xorb (get A1 (r1 + i) j) (xsum r1 (fun k => get T0 (r1 + i) k && get Xm k j))).
       { intros i j Hi Hj. unfold Cm. rewrite get_madd.
@@ -184,7 +184,6 @@ Section Schur.
       + intros i j H. rewrite HgAs, HgAc, HgAb, HgAa. destruct H.
         * bcase.
         * rewrite (get_out_col A i j) by (auto; fold n; lia). bcase.
-          apply get_out_col; [assumption|lia].
       + intros i j Hi Hj. rewrite <- HB by assumption.
         destruct (Nat.leb_spec r1 i) as [Hri|Hri]; cbn [andb].
         * (* a row of the Schur complement *)
@@ -206,3 +205,4 @@ Section Schur.
           destruct (get A1 i j), (xsum i (fun k => get A00 i k && get Xm k j)); reflexivity.
   Qed.
 End Schur.
+
